@@ -481,3 +481,18 @@ def RM.runLabels (s : RM) : List RLabel → Option RM
   | a :: as => (s.step a).bind fun s' => RM.runLabels s' as
 
 end Kit.Runner
+
+namespace Kit.Runner
+
+/-- Executions with their event log (most recent event first). -/
+inductive RCM.Exec (cfg : Cfg) : List Label → RCM → Prop where
+  | init : RCM.Exec cfg [] {}
+  | step {tr : List Label} {s s' : RCM} (a : Label) :
+      RCM.Exec cfg tr s → s.step cfg a = some s' → RCM.Exec cfg (a :: tr) s'
+
+inductive RM.Exec : List RLabel → RM → Prop where
+  | init : RM.Exec [] {}
+  | step {tr : List RLabel} {s s' : RM} (a : RLabel) :
+      RM.Exec tr s → s.step a = some s' → RM.Exec (a :: tr) s'
+
+end Kit.Runner
